@@ -168,6 +168,18 @@ def r06_2(ctx: Ctx) -> None:
 
 def r06_3(ctx: Ctx) -> None:
     """digest vectors: number of CRCs read = number of defined entries."""
+    # the folder digests of UnpackInfo end up ON the folders: each folder gets its flag from the vector and, when defined, its CRC from the
+    # compact list (the flag is what the extraction path, the substream hand-down and the header writer consult)
+    rc = ctx.prog.func("archiveinfo", "UnpackInfo._retrieve_coders_info")
+    for lp in [l for l in walk(rc.node) if isinstance(l, ast.For) and "folders" in norm(l.iter) and any(isinstance(x, ast.Attribute) and x.attr == "crc" and isinstance(x.ctx, ast.Store) for x in ast.walk(l))]:
+        fv = [x.id for x in ast.walk(lp.target) if isinstance(x, ast.Name)]
+        flag = [n for n in ast.walk(lp) if isinstance(n, ast.Assign) and isinstance(n.targets[0], ast.Attribute) and n.targets[0].attr == "digestdefined"
+                and isinstance(n.targets[0].value, ast.Name) and n.targets[0].value.id in fv and isinstance(n.value, ast.Subscript)]
+        uncond = [n for n in flag if n in lp.body]
+        ctx.check(bool(uncond), "R06.3", rc, lp, "every folder's digestdefined flag is taken from the vector",
+                  "UnpackInfo._retrieve_coders_info stores the folders' CRCs but not (for every folder, unconditionally) the flag that says whether a folder has one: "
+                  "`folder.digestdefined` stays False, the folder CRC is never compared, never handed down to the single substream and never rewritten",
+                  construct="folder digestdefined not stored")
     sites = [("archiveinfo", "UnpackInfo._retrieve_coders_info"), ("archiveinfo", "SubstreamsInfo._read"), ("archiveinfo", "PackInfo._read")]
     n = 0
     for mod, qn in sites:
